@@ -35,6 +35,14 @@
 //     misdirected connection).
 //   - "accepted but never dialed" is decided on events: the exchange error is not a
 //     timeout / refusal and the trace holds no connection attempt of that case.
+//   - option dimension (fwd.go): upstreams are also configured on one real forward
+//     plugin (2-4 per plugin, every option present on some positions and absent on
+//     others, per upstream or plugin-global) and every member is judged on its own
+//     expectation; an option a scheme is documented to ignore (socks5 on udp / quic /
+//     h3, including the TCP retry of a udp upstream after a truncated reply) must
+//     not move any connection: the configured proxy listens as a decoy. Sockets of
+//     members that inherit the plugin-global so_mark carry groupMarkBase+group and
+//     are resolved to the member that may contact the destination.
 package main
 
 import (
@@ -1154,6 +1162,9 @@ func evaluate(p *parent, tr *traceResult) {
 					// the failing dimension is the option set / the position on the
 					// plugin, not the written form of the address
 					key = pr.class + "-" + sn + c.siblingSuffix()
+					if c.GroupKind == "forward" && pr.class != "dest-redirected-to-ignored-socks5" {
+						key = pr.class + c.siblingSuffix()
+					}
 				}
 				if seen[key] {
 					continue
